@@ -46,7 +46,12 @@ def gen(rng, facts):
             u = rng.randrange(nt)
             if u != t and rng.random() < 0.7: c.cmds.append(fresh(a_log(u)))
             if rng.random() < 0.5: c.poll()
-            c.resume(t)
+            if rng.random() < 0.4:
+                # the stalled statement is enqueued in the middle of the backend's pass, between two queue reads, and time
+                # passes before the next queue is read (a cut-off taken per queue instead of once per pass shows here)
+                c.poll([(3, rng.choice([0, 1, 1, 2]), [('resume', t), ('tick', rng.choice([g + 1, 2 * g, 1]))])])
+            else:
+                c.resume(t)
         elif r < 0.6: c.tick(rng.choice([1, g - 1, g, g + 1, 2 * g, 10]))
         elif r < 0.65: c.resume(t)
         else:
@@ -100,7 +105,7 @@ def nontrivial(case, obs):
     return len(set(d['thread'] for d in acc)) >= 2 and len(set(d['ts'] for d in acc)) >= 3
 
 
-RULE = ('virtual-clock schedules: 2-5 threads (+ first-time threads), statements stalled between clock read and enqueue for {0, g-1, g, g+1, g/2} ticks, ticks of {1, g-1, g, g+1, 2g}, '
+RULE = ('virtual-clock schedules: 2-5 threads (+ first-time threads), statements stalled between clock read and enqueue for {0, g-1, g, g+1, g/2} ticks (resumed at top level or between two queue reads of a pass, followed by a clock jump), ticks of {1, g-1, g, g+1, 2g}, '
         'log calls injected at the yield points after the first cache refresh (Y1), after the clock read (Y2), between queue reads (Y3) and in the batch loop (Y4), soft limit 1 (always batch) to 8, '
         'grace 1000/5000 ticks, bounded blocking, bounded dropping and unbounded (growing) queues, bursts of 64-byte records that fill a node exactly with the hard limit on/around the node boundary; non-trivial = accepted statements from >= 2 threads with >= 3 distinct timestamps; the monitor applies when every accepted statement was committed within the grace period; distinct by case text')
 
